@@ -1,9 +1,1757 @@
-//! C08 — not implemented yet (stub).
-use crate::engine::Opts;
-pub fn main(_opts: &Opts) -> i32 {
-    eprintln!("C08: check not implemented");
-    2
+//! C08 — parsers are total: any byte string yields an error or well-formed terms, never a panic,
+//! stack overflow or abort, in debug (profile `verif`: assertions on) and release builds.
+//!
+//! Oracle (in-target, see `fuzz/target_oracle.rs`): drive `try_for_each_triple/quad` under
+//! catch_unwind, call every accessor of every (nested) yielded term and re-validate the value with
+//! the toolkit's own validators. The same generated inputs are re-run in the `release` binary
+//! through `--worker C08 gen ...`; deep-nesting documents run in child processes on a 2 MiB stack.
+use crate::engine::*;
+use proptest::prelude::*;
+use proptest::strategy::ValueTree;
+use proptest::test_runner::{Config, RngAlgorithm, TestRng, TestRunner};
+use serde::{Deserialize, Serialize};
+use serde_json::{json, Value};
+use std::io::{Read, Write};
+use std::process::{Command, Stdio};
+use std::time::{Duration, Instant};
+
+#[path = "../../fuzz/target_oracle.rs"]
+pub mod target;
+use target::SYNTAXES;
+
+#[derive(Clone, Debug, Serialize, Deserialize)]
+pub struct Case {
+    pub syntax: String,
+    #[serde(default)]
+    pub base: Option<String>,
+    /// the document when it is valid UTF-8 ...
+    #[serde(default)]
+    pub text: Option<String>,
+    /// ... otherwise its bytes in hexadecimal
+    #[serde(default)]
+    pub hex: Option<String>,
 }
-pub fn worker(_args: &[String]) -> i32 {
-    2
+impl Case {
+    pub fn new(syntax: &str, base: Option<String>, data: Vec<u8>) -> Case {
+        match String::from_utf8(data) {
+            Ok(t) => Case { syntax: syntax.into(), base, text: Some(t), hex: None },
+            Err(e) => Case {
+                syntax: syntax.into(),
+                base,
+                text: None,
+                hex: Some(e.into_bytes().iter().map(|b| format!("{b:02x}")).collect()),
+            },
+        }
+    }
+    pub fn data(&self) -> Vec<u8> {
+        if let Some(t) = &self.text {
+            t.clone().into_bytes()
+        } else if let Some(h) = &self.hex {
+            (0..h.len() / 2).filter_map(|i| u8::from_str_radix(&h[2 * i..2 * i + 2], 16).ok()).collect()
+        } else {
+            vec![]
+        }
+    }
+}
+
+pub struct C08;
+
+fn engine_catcher(f: &mut dyn FnMut()) -> Result<(), String> {
+    catch(|| f())
+}
+
+// ------------------------------------------------------------------------------------------
+// document generators (driven by a tape of random choices, so that cases shrink with the tape)
+
+struct G<'a> {
+    t: &'a [u32],
+    i: usize,
+    budget: i32,
+    /// near-miss mode: every choice may (1 in 4) leave the valid part of its pool
+    wild: bool,
+    /// N-Triples family: only absolute IRIs are valid
+    abs_only: bool,
+}
+impl<'a> G<'a> {
+    fn n(&mut self, k: usize) -> usize {
+        let v = self.t.get(self.i).copied().unwrap_or(0);
+        self.i += 1;
+        (v as usize) % k.max(1)
+    }
+    fn chance(&mut self, num: usize, den: usize) -> bool {
+        self.n(den) < num
+    }
+    fn pick<'b>(&mut self, xs: &[&'b str]) -> &'b str {
+        xs[self.n(xs.len())]
+    }
+    /// pick among the first `valid` items (the valid ones), or among all in near-miss mode
+    fn pk<'b>(&mut self, valid: usize, xs: &[&'b str]) -> &'b str {
+        if self.wild && self.n(4) == 0 {
+            xs[self.n(xs.len())]
+        } else {
+            xs[self.n(valid.min(xs.len()).max(1))]
+        }
+    }
+    fn iri(&mut self) -> &'static str {
+        let v = if self.abs_only { 15 } else { 23 };
+        self.pk(v, IRIS)
+    }
+    fn spend(&mut self) -> bool {
+        self.budget -= 1;
+        self.budget > 0 && self.i < self.t.len() + 8
+    }
+}
+
+const IRIS: &[&str] = &[
+    "http://example.org/a",
+    "http://example.org/ns#b",
+    "http://example.org/",
+    "urn:x:y",
+    "tag:x",
+    "a:",
+    "http://[::1]/p",
+    "http://[1:2::3]:80/",
+    "http://[V1.a]/",
+    "http://192.168.0.1:8080/x",
+    "http://a//b/./../c",
+    "http://a/?q#f",
+    "http://\u{e9}.org/\u{fc}",
+    "http://a/%41%2f",
+    "http://u:p@h/",
+    // relative
+    "",
+    "#frag",
+    "rel",
+    "../rel",
+    "./a:b",
+    "//auth/p",
+    "/abs",
+    "?q",
+    // invalid or suspicious
+    "http://a b/",
+    "http://a/%zz",
+    "http://a/%4",
+    "http://a/\u{e000}",
+    "http://a:80x/",
+    "a://@@",
+    "http://[:1::]/",
+    "http://[1::2::3]/",
+    "http://a/<",
+    "http://a/{b}",
+    "http://a/\\u0020x",
+    "http://a/\\u00e9",
+    "http://a/\\U0001F600",
+    "http://a/\\u003E",
+    "http://a/\\uD800",
+    "x:y:z",
+    ":a",
+    "1:a",
+    "http://a/\u{fffe}",
+    "http://a/|",
+    "http://a/^",
+    "http://a/`",
+    "http://a/\"",
+];
+const BNODES: &[&str] = &[
+    // valid (16)
+    "b", "b1", "1", "a.b", "a..b", "a-b", "a\u{b7}b", "\u{e9}", "_", "a.1", "0.0", "x\u{203f}", "a...b", "\u{10000}", "riog0", "a.-",
+    // invalid
+    "a.", "-a", "\u{b7}a", "a:b", "\u{300}a", "", ".", "a b", "a%20",
+];
+const TAGS: &[&str] = &["en", "en-US", "EN", "x-priv", "de-1996", "a-b-c-d-e-f-g-h", "a", "i-klingon", "en-a-bbb-x-a", /* invalid from here (9 valid) */ "toolongsubtagxx-y", "en-", "-en", "1a", "a1", "en--us", "\u{e9}", "en_US", ""];
+const LEX: &[&str] = &[
+    "a", "", "hello world", "a\\\"b", "\\n\\t\\\\", "\\u00e9", "\\U0001F600", "\u{e9}\u{1F600}", "'", "1", "true", "\\'", "<tag>&amp;", /* 13 valid */ "\\uD800", "\\x", "\\u0000", "a\\", "\\u12", "\\U0001",
+];
+const NUMS: &[&str] = &["1", "-1", "+1.0", ".5", "1e3", "1E-3", "-.5e-2", "1.e1", "123456789012345678901234567890", "00", /* 10 valid */ "1.", "1e", "1.0e+", "+", "0x10"];
+const PNAMES: &[&str] = &[
+    ":a", "ex:b", "ex:a.b", "ex:%41", "ex:\\~a", "ex:a:b", "ex:", ":", "ex:\u{e9}", "ex:1a", "ex:a\\.", "ex:a..b", "rdf:type", "xsd:integer", /* 14 valid */ "ex:a.", "undefined:a", "ex:-a", "ex:%4", "ex:\\u0041", "e.x:a",
+    "ex.:a", "ex:a%", "ex:\\", "ex:a\\#b",
+];
+const VARS: &[&str] = &["?x", "?1", "?\u{e9}", "?x\u{b7}", "?_", /* 5 valid */ "?a.b", "?", "$x", "?a-b", "?\u{b7}", "?a:b"];
+const BASES: &[&str] = &["http://example.org/base/doc", "http://[1::]/", "a:", "urn:x:y", "http://a/b/../c?q#f", "file:///x", "http://\u{e9}/", "http://[v1.a]/x", "http://[V1.a]/x", "tag:x"];
+
+fn ws(g: &mut G, out: &mut String) {
+    if g.abs_only {
+        // N-Triples family: statements are line-based
+        out.push_str(g.pk(5, &[" ", " ", " ", "  ", "\t", "", "\n", " # c\n", "\r\n"]));
+    } else {
+        out.push_str(g.pick(&[" ", " ", " ", "  ", "\t", "", "\n", " # c\n", "\r\n"]));
+    }
+}
+
+/// an N-Triples-family term (also used by Turtle for the generic parts)
+fn nt_term(g: &mut G, out: &mut String, pos: char, generalized: bool, depth: u32) {
+    let k = g.n(if generalized { 12 } else { 10 });
+    match k {
+        0..=3 => {
+            out.push('<');
+            out.push_str(g.iri());
+            out.push('>');
+        }
+        4 | 5 if pos != 'p' || generalized || (g.wild && g.chance(1, 3)) => {
+            out.push_str("_:");
+            out.push_str(g.pk(16, BNODES));
+        }
+        6 | 7 if pos == 'o' || generalized || (g.wild && g.chance(1, 3)) => {
+            out.push('"');
+            out.push_str(g.pk(13, LEX));
+            out.push('"');
+            match g.n(4) {
+                0 => {
+                    out.push('@');
+                    out.push_str(g.pk(9, TAGS));
+                }
+                1 => {
+                    out.push_str("^^<");
+                    out.push_str(g.iri());
+                    out.push('>');
+                }
+                2 if g.wild => out.push_str(g.pick(&["^^", "@", "^^_:b", "^^\"x\"", "@@en", "^<http://x/>"])),
+                _ => {}
+            }
+        }
+        8 if depth < 4 && (matches!(pos, 's' | 'o') || generalized || (g.wild && g.chance(1, 3))) => {
+            out.push_str("<<");
+            ws(g, out);
+            nt_term(g, out, 's', generalized, depth + 1);
+            ws(g, out);
+            nt_term(g, out, 'p', generalized, depth + 1);
+            ws(g, out);
+            nt_term(g, out, 'o', generalized, depth + 1);
+            ws(g, out);
+            out.push_str(">>");
+        }
+        10 | 11 => out.push_str(g.pk(5, VARS)),
+        _ => {
+            out.push('<');
+            out.push_str(g.pick(&IRIS[..5]));
+            out.push('>');
+        }
+    }
+}
+
+fn gen_nt(g: &mut G, quads: bool, generalized: bool) -> String {
+    let mut out = String::new();
+    let lines = 1 + g.n(5);
+    for _ in 0..lines {
+        if g.chance(1, 10) {
+            out.push_str(g.pick(&["# comment\n", "\n", "   \n", "\r\n", "#\n"]));
+        }
+        nt_term(g, &mut out, 's', generalized, 0);
+        ws(g, &mut out);
+        nt_term(g, &mut out, 'p', generalized, 0);
+        ws(g, &mut out);
+        nt_term(g, &mut out, 'o', generalized, 0);
+        if quads && g.chance(1, 2) {
+            ws(g, &mut out);
+            nt_term(g, &mut out, 'g', generalized, 0);
+        }
+        ws(g, &mut out);
+        out.push_str(g.pk(5, &[".", ".", ".", ".", " .", "", ";", ". ."]));
+        out.push_str(g.pk(5, &["\n", "\n", "\n", "\r\n", " # c\n", "", " "]));
+    }
+    out
+}
+
+fn ttl_term(g: &mut G, out: &mut String, pos: char, generalized: bool, depth: u32) {
+    if !g.spend() {
+        out.push_str(":a");
+        return;
+    }
+    let k = g.n(16);
+    match k {
+        0 | 1 => out.push_str(g.pk(14, PNAMES)),
+        2 if pos == 'p' => out.push('a'),
+        3 if pos == 'o' => out.push_str(g.pk(10, NUMS)),
+        4 if pos == 'o' => out.push_str(g.pk(2, &["true", "false", "TRUE", "tru", "falsey"])),
+        5 if pos == 'o' => {
+            let q = g.pick(&["\"\"\"", "'''", "'", "\""]);
+            out.push_str(q);
+            out.push_str(g.pk(13, LEX));
+            if q.len() == 3 && g.chance(1, 2) {
+                out.push_str(g.pk(1, &["\n", "'", "\"", "\"\"", "''", "\\\n"]));
+            }
+            out.push_str(q);
+            match g.n(4) {
+                0 => {
+                    out.push('@');
+                    out.push_str(g.pk(9, TAGS));
+                }
+                1 => {
+                    out.push_str("^^");
+                    out.push_str(g.pk(14, PNAMES));
+                }
+                _ => {}
+            }
+        }
+        6 | 7 if pos != 'p' && depth < 5 => {
+            // blank node property list
+            out.push('[');
+            let n = g.n(3);
+            for i in 0..n {
+                if i > 0 {
+                    out.push_str(g.pk(4, &[";", ";", " ; ", ";;", ","]));
+                }
+                ws(g, out);
+                ttl_term(g, out, 'p', generalized, depth + 1);
+                ws(g, out);
+                ttl_term(g, out, 'o', generalized, depth + 1);
+            }
+            ws(g, out);
+            out.push(']');
+        }
+        8 | 9 if pos != 'p' && depth < 5 => {
+            out.push('(');
+            let n = g.n(4);
+            for _ in 0..n {
+                ws(g, out);
+                ttl_term(g, out, 'o', generalized, depth + 1);
+            }
+            ws(g, out);
+            out.push(')');
+        }
+        10 if depth < 4 => {
+            out.push_str("<<");
+            ws(g, out);
+            ttl_term(g, out, 's', generalized, depth + 1);
+            ws(g, out);
+            ttl_term(g, out, 'p', generalized, depth + 1);
+            ws(g, out);
+            ttl_term(g, out, 'o', generalized, depth + 1);
+            ws(g, out);
+            out.push_str(">>");
+        }
+        _ => nt_term(g, out, pos, generalized, depth),
+    }
+}
+
+fn ttl_statement(g: &mut G, out: &mut String, generalized: bool) {
+    ttl_term(g, out, 's', generalized, 0);
+    let np = 1 + g.n(3);
+    for i in 0..np {
+        if i > 0 {
+            out.push_str(g.pk(4, &[" ;", ";", " ;\n  ", ";;"]));
+        }
+        ws(g, out);
+        ttl_term(g, out, 'p', generalized, 0);
+        let no = 1 + g.n(2);
+        for j in 0..no {
+            if j > 0 {
+                out.push_str(g.pk(2, &[",", " , ", ",,"]));
+            }
+            ws(g, out);
+            ttl_term(g, out, 'o', generalized, 0);
+            if g.chance(1, 8) {
+                // annotation
+                out.push_str(" {| ");
+                ttl_term(g, out, 'p', generalized, 1);
+                out.push(' ');
+                ttl_term(g, out, 'o', generalized, 1);
+                out.push_str(g.pk(3, &[" |}", " |}", "|}", " }", " |"]));
+            }
+        }
+    }
+    ws(g, out);
+    out.push_str(g.pk(4, &[".", ".", ".", ".", "", ";", " . ."]));
+    out.push('\n');
+}
+
+fn gen_turtle(g: &mut G, trig: bool, generalized: bool) -> String {
+    let mut out = String::new();
+    g.budget = 60;
+    if g.chance(5, 6) {
+        out.push_str(g.pk(2, &[
+            "@prefix ex: <http://example.org/> .\n@prefix : <http://example.org/d#> .\n",
+            "PREFIX ex: <http://example.org/ns/>\nPREFIX : <http://example.org/>\n",
+            "PREFIX ex: <http://example.org/>\nPREFIX : <rel/>\n",
+            "@prefix ex: <> .\n@prefix : <#> .\n",
+            "@prefix ex: <http://a b/> .\n@prefix : <http://a/%zz> .\n",
+            "@prefix ex: <http://example.org/>\n",
+            "@prefix ex: <http://[1::]/> . @prefix : <a:> .\n",
+            "prefix ex: <http://example.org/> prefix : <x:>\n",
+        ]));
+        out.push_str("@prefix rdf: <http://www.w3.org/1999/02/22-rdf-syntax-ns#> . @prefix xsd: <http://www.w3.org/2001/XMLSchema#> .\n");
+    }
+    if g.chance(1, 3) {
+        out.push_str(g.pk(2, &["@base <http://b/c/d> .\n", "@base <x:y> .\n", "BASE <rel/>\n", "@base <> .\n", "@base <http://a b/> .\n", "BASE <//h/>\n", "@base <#f> .\n", "@base <..> .\n"]));
+    }
+    let n = 1 + g.n(4);
+    for _ in 0..n {
+        if trig && g.chance(1, 2) {
+            out.push_str(g.pk(4, &["GRAPH ", "", "graph ", ""]));
+            match g.n(5) {
+                0 => {}
+                1 => out.push_str("_:g "),
+                2 => out.push_str("[] "),
+                3 => out.push_str(g.pk(14, PNAMES)),
+                _ => {
+                    out.push('<');
+                    out.push_str(g.iri());
+                    out.push_str("> ");
+                }
+            }
+            out.push_str(" {\n");
+            let m = g.n(3);
+            for _ in 0..m {
+                ttl_statement(g, &mut out, generalized);
+            }
+            out.push_str(g.pk(3, &["}\n", "}\n", "}\n", "} .\n", "\n", "}}\n"]));
+        } else {
+            ttl_statement(g, &mut out, generalized);
+        }
+        if g.chance(1, 6) {
+            out.push_str(g.pick(&["@base <http://c/> .\n", "@prefix ex: <http://other/> .\n", "# comment\n", "BASE <../>\n"]));
+        }
+    }
+    out
+}
+
+const XML_IRIS: &[&str] = &[
+    "http://example.org/a", "http://example.org/ns#b", "#frag", "rel", "../rel", "", "//auth/p", "http://[::1]/p", "urn:x:y", "x:y:z", "http://\u{e9}/", "?q", "./a:b", /* 13 valid */ "http://a b/", "http://a/%zz", "http://[:1::]/",
+    "a://@@", "http://a:80x/", "&e;x", "http://a/&#x20;b", "http://a/&lt;", "http://a/\u{e000}", ":a", "http://a/{b}",
+];
+const XML_BASES: &[&str] = &["http://example.org/a", "http://b/c/", "urn:x:y", "http://[::1]/x?q#f", /* 4 valid */ "#frag", "rel", "", "//h/", "http://a b/", "a://@@", "../.."];
+const XML_NODEIDS: &[&str] = &["b", "b1", "a.b", "_x", "\u{e9}", "a\u{b7}", "a..b", /* 7 valid */ "1", "a.", "-a", "a b", "", "a:b"];
+const XML_TEXT: &[&str] = &["text", "", " ", "a &amp; b", "&lt;", "<![CDATA[x <y>]]>", "&#233;", "\u{e9}\u{1F600}", "a\nb", "<!-- c -->x", /* 10 valid */ "&#x0;", "&e;", "&undefined;"];
+
+fn xml_attr(out: &mut String, name: &str, val: &str) {
+    out.push(' ');
+    out.push_str(name);
+    out.push_str("=\"");
+    out.push_str(&val.replace('"', "&quot;").replace('<', "&lt;"));
+    out.push('"');
+}
+
+fn xml_props(g: &mut G, out: &mut String, depth: u32) {
+    let n = g.n(4);
+    for _ in 0..n {
+        if !g.spend() {
+            return;
+        }
+        let name = g.pk(9, &["ex:p", "ex:q", "rdf:li", "rdf:_1", "rdf:type", "rdf:value", "ex:p.q", "ex:\u{e9}", "rdf:first", "p", "rdf:Description", "rdf:about", "rdf:_0", "xml:p"]);
+        out.push('<');
+        out.push_str(name);
+        if g.chance(1, 8) {
+            xml_attr(out, "rdf:ID", g.pk(7, XML_NODEIDS));
+        }
+        if g.chance(1, 8) {
+            xml_attr(out, "xml:lang", g.pk(9, TAGS));
+        }
+        if g.chance(1, 12) {
+            xml_attr(out, "xml:base", g.pk(4, XML_BASES));
+        }
+        match g.n(10) {
+            0 => {
+                xml_attr(out, "rdf:resource", g.pk(13, XML_IRIS));
+                out.push_str(g.pk(3, &["/>", "/>", "></", ">x</"]));
+                if out.ends_with("</") {
+                    out.push_str(name);
+                    out.push('>');
+                }
+            }
+            1 => {
+                xml_attr(out, "rdf:nodeID", g.pk(7, XML_NODEIDS));
+                out.push_str("/>");
+            }
+            2 => {
+                xml_attr(out, "rdf:datatype", g.pk(13, XML_IRIS));
+                out.push('>');
+                out.push_str(g.pk(10, XML_TEXT));
+                out.push_str("</");
+                out.push_str(name);
+                out.push('>');
+            }
+            3 => {
+                xml_attr(out, "rdf:parseType", g.pk(2, &["Literal", "Literal", "literal", "Other"]));
+                out.push('>');
+                out.push_str(g.pk(6, &["<b>x</b>", "<ex:a ex:b=\"c\"/>text", "<a xmlns=\"http://n/\"><b/></a>", "", "x &amp; y", "<rdf:Description/>", "<a><b></a></b>"]));
+                out.push_str("</");
+                out.push_str(name);
+                out.push('>');
+            }
+            4 if depth < 5 => {
+                xml_attr(out, "rdf:parseType", "Resource");
+                out.push('>');
+                xml_props(g, out, depth + 1);
+                out.push_str("</");
+                out.push_str(name);
+                out.push('>');
+            }
+            5 if depth < 5 => {
+                xml_attr(out, "rdf:parseType", "Collection");
+                out.push('>');
+                let m = g.n(3);
+                for _ in 0..m {
+                    xml_node(g, out, depth + 1);
+                }
+                out.push_str("</");
+                out.push_str(name);
+                out.push('>');
+            }
+            6 if depth < 5 => {
+                out.push('>');
+                xml_node(g, out, depth + 1);
+                if g.chance(1, 8) {
+                    xml_node(g, out, depth + 1);
+                }
+                out.push_str("</");
+                out.push_str(name);
+                out.push('>');
+            }
+            7 => {
+                // property attributes on an empty property element
+                xml_attr(out, "ex:r", g.pk(10, XML_TEXT));
+                if g.chance(1, 2) {
+                    xml_attr(out, "rdf:type", g.pk(13, XML_IRIS));
+                }
+                out.push_str("/>");
+            }
+            _ => {
+                out.push('>');
+                out.push_str(g.pk(10, XML_TEXT));
+                out.push_str("</");
+                out.push_str(g.pk(3, &[name, name, name, "ex:z"]));
+                out.push('>');
+            }
+        }
+        out.push('\n');
+    }
+}
+
+fn xml_node(g: &mut G, out: &mut String, depth: u32) {
+    if !g.spend() {
+        out.push_str("<rdf:Description/>");
+        return;
+    }
+    let name = g.pk(5, &["rdf:Description", "rdf:Description", "ex:T", "rdf:Bag", "ex:t.u", "rdf:li", "T", "rdf:RDF", "rdf:ID"]);
+    out.push('<');
+    out.push_str(name);
+    match g.n(6) {
+        0 | 1 => xml_attr(out, "rdf:about", g.pk(13, XML_IRIS)),
+        2 => xml_attr(out, "rdf:ID", g.pk(7, XML_NODEIDS)),
+        3 => xml_attr(out, "rdf:nodeID", g.pk(7, XML_NODEIDS)),
+        4 => {
+            xml_attr(out, "rdf:about", g.pk(13, XML_IRIS));
+            xml_attr(out, "rdf:nodeID", g.pk(7, XML_NODEIDS));
+        }
+        _ => {}
+    }
+    if g.chance(1, 5) {
+        xml_attr(out, "ex:attr", g.pk(10, XML_TEXT));
+    }
+    if g.chance(1, 8) {
+        xml_attr(out, "rdf:type", g.pk(13, XML_IRIS));
+    }
+    if g.chance(1, 8) {
+        xml_attr(out, "xml:lang", g.pk(9, TAGS));
+    }
+    if g.chance(1, 10) {
+        xml_attr(out, "xml:base", g.pk(4, XML_BASES));
+    }
+    if g.wild && g.chance(1, 12) {
+        xml_attr(out, g.pick(&["rdf:li", "rdf:aboutEach", "rdf:bagID", "rdf:resource", "rdf:datatype", "xmlns:ex", "xmlns"]), g.pk(13, XML_IRIS));
+    }
+    if g.chance(1, 6) {
+        out.push_str("/>\n");
+        return;
+    }
+    out.push_str(">\n");
+    xml_props(g, out, depth);
+    out.push_str("</");
+    out.push_str(name);
+    out.push_str(">\n");
+}
+
+fn gen_xml(g: &mut G) -> String {
+    g.budget = 40;
+    let mut out = String::new();
+    out.push_str(g.pk(3, &["<?xml version=\"1.0\" encoding=\"utf-8\"?>\n", "<?xml version=\"1.0\"?>\n", "", "<?xml version=\"1.1\"?>", "\u{feff}<?xml version=\"1.0\"?>", "<?xml version=\"1.0\" encoding=\"utf-16\"?>"]));
+    if g.chance(1, 4) {
+        out.push_str(g.pk(1, &[
+            "<!DOCTYPE rdf:RDF [<!ENTITY e \"http://e/\">]>\n",
+            "<!DOCTYPE rdf:RDF [<!ENTITY e \"&e;\">]>\n",
+            "<!DOCTYPE rdf:RDF [<!ENTITY e \"a b\"><!ENTITY f \"&e;&e;\">]>\n",
+            "<!DOCTYPE rdf:RDF SYSTEM \"http://x/dtd\">\n",
+            "<!DOCTYPE x [<!ELEMENT x ANY>",
+        ]));
+    }
+    let wrap = !g.wild || g.chance(5, 6);
+    if wrap {
+        out.push_str("<rdf:RDF xmlns:rdf=\"http://www.w3.org/1999/02/22-rdf-syntax-ns#\"");
+        out.push_str(g.pk(2, &[" xmlns:ex=\"http://example.org/\"", " xmlns:ex=\"http://example.org/\" xmlns=\"http://d/\"", " xmlns:ex=\"rel/\"", " xmlns:ex=\"\"", " xmlns:ex=\"http://a b/\"", ""]));
+        if g.chance(1, 4) {
+            xml_attr(&mut out, "xml:base", g.pk(4, XML_BASES));
+        }
+        if g.chance(1, 6) {
+            xml_attr(&mut out, "xml:lang", g.pk(9, TAGS));
+        }
+        out.push_str(">\n");
+    }
+    let n = 1 + g.n(3);
+    for _ in 0..n {
+        xml_node(g, &mut out, 0);
+    }
+    if wrap {
+        out.push_str(g.pk(3, &["</rdf:RDF>\n", "</rdf:RDF>\n", "</rdf:RDF>\n", "", "</rdf:rdf>"]));
+    }
+    out
+}
+
+const J_IRIS: &[&str] = &[
+    "http://example.org/a", "http://example.org/ns#b", "ex:a", "a", "rel/b", "../c", "#f", "", "_:b", "_:1", "http://[::1]/", "urn:x:y", "//h/p", "?q", "http://\u{e9}/", "x:y:z", /* 16 valid */ "ex:", "_:a..b", "_:", "_:a b",
+    "_:\u{e9}", "@foo", "@type", "http://a b/", "http://a:80x/", "a://@@", "http://[:1::]/", ":a", "http://a/%zz", "http://a/\u{e000}", "_:b.", "_:-a", "_:a:b", "http://a/{b}", "ex:a b", "1:a", "http://a/\\u0041",
+];
+const J_KEYS: &[&str] = &["http://example.org/p", "ex:p", "p", "q", "http://[::1]/p", "x:y", /* 6 valid */ "_:bp", "rel/p", "", "@unknown", "http://a b/", "ex:", "@type", "a://@@", "@id", "p q", "http://a/%zz", "@nest", "@index", "@language"];
+const J_TAGS: &[&str] = &["en", "en-US", "EN-us", "x-priv", "a", "i-klingon", "de-1996-x-a", /* 7 valid */ "en-", "1a", "", "\u{e9}", "a b", "en--us", "toolongsubtagxx", "en_US", "-en"];
+
+fn jstr(out: &mut String, s: &str) {
+    out.push('"');
+    for c in s.chars() {
+        match c {
+            '"' => out.push_str("\\\""),
+            '\\' => out.push_str("\\\\"),
+            '\n' => out.push_str("\\n"),
+            c => out.push(c),
+        }
+    }
+    out.push('"');
+}
+
+fn j_value(g: &mut G, out: &mut String, depth: u32) {
+    if !g.spend() || depth > 6 {
+        out.push_str("\"x\"");
+        return;
+    }
+    match g.n(14) {
+        0 | 1 => jstr(out, g.pick(&["a", "", "http://example.org/v", "ex:v", "_:b", "hello", "\u{e9}", "@value"])),
+        2 => out.push_str(g.pk(9, &["1", "-1", "1.5", "1e3", "1E400", "-0", "0.1e-7", "12345678901234567890", "1.0", "01", "NaN", "1.", ".5"])),
+        3 => out.push_str(g.pk(3, &["true", "false", "null", "tru"])),
+        4 | 5 => j_node(g, out, depth + 1),
+        6 => {
+            // value object
+            out.push_str("{\"@value\":");
+            match g.n(5) {
+                0 => out.push_str(g.pk(4, &["1", "true", "null", "1.5", "[1]", "{\"a\":1}"])),
+                _ => jstr(out, g.pick(&["v", "", "1", "\u{e9}", "<b>x</b>"])),
+            }
+            if g.chance(1, 2) {
+                out.push_str(",\"@language\":");
+                if g.wild && g.chance(1, 10) {
+                    out.push_str(g.pick(&["null", "1", "[\"en\"]"]));
+                } else {
+                    jstr(out, g.pk(7, J_TAGS));
+                }
+            }
+            if g.chance(1, 3) {
+                out.push_str(",\"@type\":");
+                jstr(out, g.pk(4, &["http://www.w3.org/2001/XMLSchema#integer", "ex:dt", "@json", "rel", "_:dt", "http://a b/", "", "@id", "@vocab", "http://[:1::]/", "a://@@", "@none"]));
+            }
+            if g.chance(1, 6) {
+                out.push_str(",\"@direction\":");
+                jstr(out, g.pk(2, &["ltr", "rtl", "x", ""]));
+            }
+            if g.chance(1, 10) {
+                out.push_str(",\"@index\":\"i\"");
+            }
+            out.push('}');
+        }
+        7 => {
+            out.push_str(g.pk(4, &["{\"@list\":[", "{\"@set\":[", "{\"@list\":[[", "{\"@graph\":["]));
+            let two = out.ends_with("[[");
+            let n = g.n(4);
+            for i in 0..n {
+                if i > 0 {
+                    out.push(',');
+                }
+                j_value(g, out, depth + 1);
+            }
+            out.push_str(if two { "]]}" } else { "]}" });
+        }
+        8 | 9 => {
+            out.push('[');
+            let n = g.n(4);
+            for i in 0..n {
+                if i > 0 {
+                    out.push(',');
+                }
+                j_value(g, out, depth + 1);
+            }
+            out.push(']');
+        }
+        10 => {
+            out.push_str("{\"@id\":");
+            jstr(out, g.pk(16, J_IRIS));
+            out.push('}');
+        }
+        11 => {
+            // language / index / id maps depend on the context; harmless otherwise
+            out.push('{');
+            let n = g.n(3);
+            for i in 0..n {
+                if i > 0 {
+                    out.push(',');
+                }
+                jstr(out, g.pk(4, &["en", "k", "http://example.org/k", "@none", "fr-", "1a", "_:k"]));
+                out.push(':');
+                j_value(g, out, depth + 1);
+            }
+            out.push('}');
+        }
+        _ => jstr(out, g.pk(13, LEX)),
+    }
+}
+
+fn j_context(g: &mut G, out: &mut String, depth: u32) {
+    match g.n(12) {
+        0 => out.push_str("null"),
+        1 if g.wild => jstr(out, g.pick(&["http://remote.example/ctx", "rel/ctx", "", "http://a b/"])),
+        2 if depth < 2 => {
+            out.push('[');
+            j_context(g, out, depth + 1);
+            out.push(',');
+            j_context(g, out, depth + 1);
+            out.push(']');
+        }
+        3 if g.wild => out.push_str(g.pick(&["1", "true", "[[]]", "{\"@context\":{}}"])),
+        _ => {
+            out.push('{');
+            let mut first = true;
+            let mut sep = |out: &mut String| {
+                if !first {
+                    out.push(',');
+                }
+                first = false;
+            };
+            if g.chance(1, 2) {
+                sep(out);
+                out.push_str("\"ex\":");
+                jstr(out, g.pk(3, &["http://example.org/", "http://example.org/ns#", "http://[::1]/", "rel/", "", "_:", "http://a b/", "ex:", "@type"]));
+            }
+            if g.chance(1, 2) {
+                sep(out);
+                out.push_str("\"@vocab\":");
+                if g.chance(1, 8) {
+                    out.push_str("null");
+                } else {
+                    jstr(out, g.pk(3, &["http://example.org/v#", "", "rel/", "_:", "ex:", "http://a b/", "@id", "../"]));
+                }
+            }
+            if g.chance(1, 3) {
+                sep(out);
+                out.push_str("\"@base\":");
+                if g.chance(1, 6) {
+                    out.push_str("null");
+                } else {
+                    jstr(out, g.pk(6, &["http://b/c/", "rel/", "", "a:", "http://[1::]/", "//h", "../..", "http://a b/", "#f", "a://@@", "a:b/c"]));
+                }
+            }
+            if g.chance(1, 4) {
+                sep(out);
+                out.push_str("\"@language\":");
+                jstr(out, g.pk(7, J_TAGS));
+            }
+            if g.chance(1, 6) {
+                sep(out);
+                out.push_str(g.pk(4, &["\"@version\":1.1", "\"@direction\":\"rtl\"", "\"@propagate\":false", "\"@protected\":true", "\"@version\":1.0", "\"@version\":\"1.1\"", "\"@import\":\"http://remote.example/c\""]));
+            }
+            let n = g.n(3);
+            for _ in 0..n {
+                sep(out);
+                jstr(out, g.pk(6, &["p", "q", "ex:p", "http://example.org/p", "type", "id", "@type", "", "p q", "_:t", "a:b"]));
+                out.push(':');
+                match g.n(6) {
+                    0 => jstr(out, g.pk(4, &["http://example.org/p", "ex:p", "@id", "@type", "_:p", "rel", "", "@reverse", "http://a b/", "@graph", "@nest", "a://@@"])),
+                    1 => out.push_str("null"),
+                    _ => {
+                        out.push_str("{\"@id\":");
+                        jstr(out, g.pk(2, &["http://example.org/p", "ex:q", "_:p", "rel", "@type", "", "http://a b/", "@nest"]));
+                        if g.chance(1, 2) {
+                            out.push_str(",\"@type\":");
+                            jstr(out, g.pk(6, &["@id", "@vocab", "@json", "@none", "http://www.w3.org/2001/XMLSchema#date", "ex:dt", "_:dt", "rel", "@foo"]));
+                        }
+                        if g.chance(1, 2) {
+                            out.push_str(",\"@container\":");
+                            out.push_str(g.pk(9, &[
+                                "\"@list\"", "\"@set\"", "\"@language\"", "\"@index\"", "\"@id\"", "\"@graph\"", "\"@type\"", "[\"@graph\",\"@id\"]", "[\"@index\",\"@set\"]", "\"@foo\"", "[\"@list\",\"@set\"]", "null",
+                            ]));
+                        }
+                        if g.chance(1, 6) {
+                            out.push_str(",\"@language\":");
+                            jstr(out, g.pk(7, J_TAGS));
+                        }
+                        if g.chance(1, 8) {
+                            out.push_str(g.pick(&[",\"@reverse\":\"http://example.org/r\"", ",\"@prefix\":true", ",\"@index\":\"http://example.org/i\"", ",\"@context\":{\"@vocab\":\"http://n/\"}", ",\"@nest\":\"@nest\"", ",\"@direction\":\"ltr\""]));
+                        }
+                        out.push('}');
+                    }
+                }
+            }
+            out.push('}');
+        }
+    }
+}
+
+fn j_node(g: &mut G, out: &mut String, depth: u32) {
+    out.push('{');
+    let mut first = true;
+    let mut sep = |out: &mut String| {
+        if !first {
+            out.push(',');
+        }
+        first = false;
+    };
+    if (depth == 0 && g.chance(3, 4)) || g.chance(1, 10) {
+        sep(out);
+        out.push_str("\"@context\":");
+        j_context(g, out, 0);
+    }
+    if g.chance(2, 3) {
+        sep(out);
+        out.push_str(g.pick(&["\"@id\":", "\"@id\":", "\"id\":"]));
+        if g.wild && g.chance(1, 12) {
+            out.push_str(g.pick(&["null", "1", "[\"a\"]", "{}"]));
+        } else {
+            jstr(out, g.pk(16, J_IRIS));
+        }
+    }
+    if g.chance(1, 3) {
+        sep(out);
+        out.push_str(g.pick(&["\"@type\":", "\"@type\":", "\"type\":"]));
+        if g.chance(1, 2) {
+            jstr(out, g.pk(16, J_IRIS));
+        } else {
+            out.push('[');
+            jstr(out, g.pk(16, J_IRIS));
+            out.push(',');
+            jstr(out, g.pk(16, J_IRIS));
+            out.push(']');
+        }
+    }
+    let n = g.n(4);
+    for _ in 0..n {
+        if !g.spend() {
+            break;
+        }
+        sep(out);
+        jstr(out, g.pk(6, J_KEYS));
+        out.push(':');
+        j_value(g, out, depth + 1);
+    }
+    if g.chance(1, 6) && depth < 4 {
+        sep(out);
+        out.push_str(g.pk(2, &["\"@graph\":[", "\"@included\":[", "\"@graph\":[["]));
+        let two = out.ends_with("[[");
+        let m = g.n(3);
+        for i in 0..m {
+            if i > 0 {
+                out.push(',');
+            }
+            j_node(g, out, depth + 1);
+        }
+        out.push_str(if two { "]]" } else { "]" });
+    }
+    if g.chance(1, 8) && depth < 4 {
+        sep(out);
+        out.push_str("\"@reverse\":{");
+        jstr(out, g.pk(6, J_KEYS));
+        out.push(':');
+        j_value(g, out, depth + 1);
+        out.push('}');
+    }
+    if g.chance(1, 12) && depth < 4 {
+        sep(out);
+        out.push_str("\"@nest\":");
+        j_node(g, out, depth + 1);
+    }
+    out.push('}');
+}
+
+fn gen_jsonld(g: &mut G) -> String {
+    g.budget = 40;
+    let mut out = String::new();
+    if g.chance(1, 5) {
+        out.push('[');
+        let n = g.n(3);
+        for i in 0..n {
+            if i > 0 {
+                out.push(',');
+            }
+            j_node(g, &mut out, 0);
+        }
+        out.push(']');
+    } else {
+        j_node(g, &mut out, 0);
+    }
+    if g.chance(1, 20) {
+        out.push_str(g.pk(2, &[" ", "\n", "x", ",", "}", "\u{feff}"]));
+    }
+    out
+}
+
+pub fn gen_doc(syntax: &str, tape: &[u32]) -> String {
+    let wild = tape.first().map(|v| v % 3 == 0).unwrap_or(false);
+    let mut g = G { t: tape.get(1..).unwrap_or(&[]), i: 0, budget: 60, wild, abs_only: matches!(syntax, "nt" | "nq" | "gnq") };
+    match syntax {
+        "nt" => gen_nt(&mut g, false, false),
+        "nq" => gen_nt(&mut g, true, false),
+        "gnq" => gen_nt(&mut g, true, true),
+        "turtle" => gen_turtle(&mut g, false, false),
+        "trig" => gen_turtle(&mut g, true, false),
+        "gtrig" => gen_turtle(&mut g, true, true),
+        "xml" => gen_xml(&mut g),
+        _ => gen_jsonld(&mut g),
+    }
+}
+
+const EDIT_TOKENS: &[&[u8]] = &[
+    b"<", b">", b"\"", b"\\", b"_:", b"@", b"^^", b"<<", b">>", b"(", b")", b"[", b"]", b"{", b"}", b".", b";", b",", b"#", b"\n", b"\\u", b"\\U0001", b"\xff", b"\xc3", b"\x00", b"%", b":", b"..", b"'", b"\"\"\"",
+    b"&", b"&#", b"<!--", b"]]>", b"<?", b"/>", b"</", b"=", b" ", b"\xef\xbb\xbf", b"\xed\xa0\x80", b"\xf4\x90\x80\x80", b"e", b"-", b"+", b"0", b"a", b"|}", b"{|", b"?", b"$", b"null", b"\r", b"\t", b"\x7f", b"\xc2\xa0", b"\xe2\x80\xa8",
+];
+
+pub fn apply_edit(data: &mut Vec<u8>, kind: u8, pos: u32, len: u8, tok: u8) {
+    let n = data.len();
+    match kind % 6 {
+        0 => {
+            // delete a span
+            if n > 0 {
+                let p = pos as usize % n;
+                let l = (1 + len as usize % 8).min(n - p);
+                data.drain(p..p + l);
+            }
+        }
+        1 => {
+            let p = pos as usize % (n + 1);
+            let t = EDIT_TOKENS[tok as usize % EDIT_TOKENS.len()];
+            data.splice(p..p, t.iter().copied());
+        }
+        2 => {
+            // flip a bit / replace a byte
+            if n > 0 {
+                let p = pos as usize % n;
+                if len % 2 == 0 {
+                    data[p] ^= 1 << (tok % 8);
+                } else {
+                    data[p] = EDIT_TOKENS[tok as usize % EDIT_TOKENS.len()][0];
+                }
+            }
+        }
+        3 => {
+            // truncate
+            if n > 0 {
+                data.truncate(pos as usize % n);
+            }
+        }
+        4 => {
+            // duplicate a span
+            if n > 0 {
+                let p = pos as usize % n;
+                let l = (1 + len as usize % 16).min(n - p);
+                let span: Vec<u8> = data[p..p + l].to_vec();
+                data.splice(p..p, span);
+            }
+        }
+        _ => {
+            // replace a span by a token
+            if n > 0 {
+                let p = pos as usize % n;
+                let l = (len as usize % 4).min(n - p);
+                let t = EDIT_TOKENS[tok as usize % EDIT_TOKENS.len()];
+                data.splice(p..p + l, t.iter().copied());
+            }
+        }
+    }
+}
+
+fn case_strategy() -> BoxedStrategy<Case> {
+    (
+        0..SYNTAXES.len(),
+        prop::collection::vec(any::<u32>(), 8..160),
+        prop::option::weighted(0.4, 0..BASES.len()),
+        prop::collection::vec((0..6u8, any::<u32>(), any::<u8>(), any::<u8>()), 0..4),
+        0..20u8,
+    )
+        .prop_map(|(s, tape, base, edits, long)| {
+            let syntax = SYNTAXES[s];
+            let mut doc = gen_doc(syntax, &tape);
+            if long == 19 {
+                // a very long token (64 KiB) somewhere in a statement
+                let filler = "a".repeat(65536);
+                doc = doc.replacen("example", &filler, 1);
+            }
+            let mut data = doc.into_bytes();
+            for (k, p, l, t) in edits {
+                apply_edit(&mut data, k, p, l, t);
+            }
+            Case::new(syntax, base.filter(|_| target::takes_base(syntax)).map(|b| BASES[b].to_string()), data)
+        })
+        .boxed()
+}
+
+fn signature(syntax: &str, key: &str) -> String {
+    format!("{key}/{syntax}")
+}
+
+/// run one case in this process; returns (report, failures)
+fn run_here(case: &Case) -> (target::Report, Vec<Failure>) {
+    let data = case.data();
+    let rep = target::run_target(&case.syntax, case.base.as_deref(), &data, engine_catcher);
+    let fails = rep
+        .problems
+        .iter()
+        .map(|(k, d)| Failure { signature: signature(&case.syntax, k), detail: format!("[{}] {d}", profile_name()) })
+        .collect();
+    (rep, fails)
+}
+
+fn profile_name() -> &'static str {
+    if cfg!(debug_assertions) {
+        "debug-assertions on"
+    } else {
+        "release"
+    }
+}
+
+impl Check for C08 {
+    type Case = Case;
+    const ID: &'static str = "C08";
+    fn rule() -> String {
+        "a (syntax, optional base IRI, byte string) case is non-trivial when the parser yielded at least one statement, or reported an error on an input of at least 16 bytes; distinct by hash of the case. The extra stage re-runs the same generated inputs in the release binary (assertions off) and runs deep-nesting documents in child processes on a 2 MiB stack.".into()
+    }
+    fn assumptions() -> Vec<String> {
+        vec![
+            "strict parsers (nt, nq, turtle, trig, xml, jsonld) must yield IRIs and datatypes accepted by Iri::new; generalized ones (gnq, gtrig) by IriRef::new".into(),
+            "base IRIs are drawn from values accepted by Iri::new".into(),
+            "a watchdog timeout of a child process is inconclusive, never a violation".into(),
+        ]
+    }
+    fn cases(tier: Tier) -> u32 {
+        tier.pick(320_000, 9_600_000)
+    }
+    fn strategy(_tier: Tier) -> BoxedStrategy<Case> {
+        case_strategy()
+    }
+    fn run(case: &Case, ctx: &mut Ctx) {
+        if case.syntax == "nesting" {
+            // text = "<syntax> <kind> <depth>": replay of a deep-nesting scenario in child processes
+            let parts: Vec<String> = case.text.clone().unwrap_or_default().split_whitespace().map(str::to_string).collect();
+            if parts.len() != 3 {
+                ctx.class("skipped:bad-nesting-case");
+                return;
+            }
+            ctx.class("nesting-replay");
+            ctx.nontrivial();
+            let mut bins: Vec<(&str, String)> = vec![];
+            if let Ok(p) = std::env::current_exe() {
+                bins.push(("this", p.display().to_string()));
+            }
+            if let Some(b) = std::env::var("VCHECK_RELEASE").ok().filter(|p| std::path::Path::new(p).exists()) {
+                bins.push(("release", b));
+            }
+            for (pname, bin) in bins {
+                let args = vec!["--worker".to_string(), "C08".into(), "nest".into(), parts[0].clone(), parts[1].clone(), parts[2].clone()];
+                match run_child(&bin, &args, Duration::from_secs(120)) {
+                    Ok(o) if !o.timed_out => {
+                        if let Some(st) = o.status {
+                            if !st.success() && st.code() != Some(3) {
+                                ctx.fail(
+                                    format!("stack/{}/{}", parts[0], parts[1]),
+                                    format!("{} document with {} nested '{}' on a 2 MiB thread stack, {pname} binary: child {} ; stderr: {}", parts[0], parts[2], parts[1], describe_status(&st), o.stderr_tail),
+                                );
+                                return;
+                            }
+                        }
+                    }
+                    _ => ctx.class("nesting-replay-inconclusive"),
+                }
+            }
+            return;
+        }
+        if !SYNTAXES.contains(&case.syntax.as_str()) {
+            ctx.class("skipped:unknown-syntax");
+            return;
+        }
+        let (rep, fails) = run_here(case);
+        ctx.class(format!("syntax:{}", case.syntax));
+        ctx.class(format!(
+            "{}:{}",
+            case.syntax,
+            match (rep.statements > 0, rep.source_error.is_some()) {
+                (true, false) => "ok-with-statements",
+                (true, true) => "statements-then-error",
+                (false, true) => "error",
+                (false, false) => "ok-empty",
+            }
+        ));
+        if case.hex.is_some() {
+            ctx.class("invalid-utf8");
+        }
+        if case.base.is_some() {
+            ctx.class("with-base");
+        }
+        ctx.count("statements", rep.statements);
+        ctx.count("terms", rep.terms);
+        let len = case.text.as_ref().map(|t| t.len()).or(case.hex.as_ref().map(|h| h.len() / 2)).unwrap_or(0);
+        if len > 60_000 {
+            ctx.class("long-token");
+        }
+        if rep.statements > 0 || (rep.source_error.is_some() && len >= 16) {
+            ctx.nontrivial();
+        }
+        for f in fails {
+            ctx.fail(f.signature, f.detail);
+        }
+    }
+    fn show(case: &Case) -> Value {
+        json!({"syntax": case.syntax, "base": case.base, "text": case.text, "hex": case.hex})
+    }
+    fn extra_stage(tier: Tier, seed: u64, known: &Known) -> ExtraResult {
+        extra(tier, seed, known)
+    }
+}
+
+// ------------------------------------------------------------------------------------------
+// child processes
+
+fn shard_rng(seed: u64, shard: u32) -> TestRng {
+    let mut seed_bytes = [0u8; 32];
+    seed_bytes[..8].copy_from_slice(&seed.to_le_bytes());
+    seed_bytes[8..12].copy_from_slice(&shard.to_le_bytes());
+    seed_bytes[12..16].copy_from_slice(b"vrf1");
+    TestRng::from_seed(RngAlgorithm::ChaCha, &seed_bytes)
+}
+
+/// `gen <seed> <shard> <count>`: regenerate the shard's inputs (same strategy, same seeding as the
+/// engine) and run them in *this* binary; one line per failure: FAIL \t signature \t case-json \t detail
+fn worker_gen(args: &[String]) -> i32 {
+    let seed: u64 = args.first().and_then(|s| s.parse().ok()).unwrap_or(0);
+    let shard: u32 = args.get(1).and_then(|s| s.parse().ok()).unwrap_or(0);
+    let count: u32 = args.get(2).and_then(|s| s.parse().ok()).unwrap_or(0);
+    install_quiet_panic_hook();
+    let mut runner = TestRunner::new_with_rng(Config { failure_persistence: None, ..Config::default() }, shard_rng(seed, shard));
+    let strat = case_strategy();
+    let out = std::io::stdout();
+    let mut evals = 0u64;
+    let mut nontrivial = 0u64;
+    let mut reported = std::collections::BTreeSet::new();
+    for _ in 0..count {
+        let case = match strat.new_tree(&mut runner) {
+            Ok(t) => t.current(),
+            Err(_) => continue,
+        };
+        let (rep, fails) = run_here(&case);
+        evals += 1;
+        if rep.statements > 0 || rep.source_error.is_some() {
+            nontrivial += 1;
+        }
+        for f in fails {
+            if reported.insert(f.signature.clone()) {
+                let mut o = out.lock();
+                let _ = writeln!(o, "FAIL\t{}\t{}\t{}", f.signature, serde_json::to_string(&case).unwrap_or_default(), f.detail.replace(['\n', '\t'], " "));
+            }
+        }
+    }
+    println!("DONE\t{evals}\t{nontrivial}");
+    0
+}
+
+/// `corpus`: run every corpus/C08/*.json case in this binary
+fn worker_corpus(_args: &[String]) -> i32 {
+    install_quiet_panic_hook();
+    let dir = verif_root().join("corpus").join("C08");
+    let mut files: Vec<_> = std::fs::read_dir(&dir).map(|rd| rd.filter_map(|e| e.ok()).map(|e| e.path()).collect()).unwrap_or_default();
+    files.sort();
+    let mut evals = 0;
+    for f in files {
+        if f.extension().map(|e| e != "json").unwrap_or(true) {
+            continue;
+        }
+        let Ok(txt) = std::fs::read_to_string(&f) else { continue };
+        let Ok(v) = serde_json::from_str::<Value>(&txt) else { continue };
+        let cv = v.get("case").cloned().unwrap_or(v);
+        let Ok(case) = serde_json::from_value::<Case>(cv) else { continue };
+        if case.syntax == "nesting" {
+            continue;
+        }
+        evals += 1;
+        let (_, fails) = run_here(&case);
+        for fl in fails {
+            println!("FAIL\t{}\t{}\t{}", fl.signature, serde_json::to_string(&case).unwrap_or_default(), fl.detail.replace(['\n', '\t'], " "));
+        }
+    }
+    println!("DONE\t{evals}\t{evals}");
+    0
+}
+
+pub const NEST_KINDS: &[(&str, &str)] = &[
+    ("nt", "quoted"),
+    ("nq", "quoted"),
+    ("gnq", "quoted"),
+    ("turtle", "collection"),
+    ("turtle", "bnode-list"),
+    ("turtle", "quoted"),
+    ("turtle", "annotation"),
+    ("trig", "collection"),
+    ("trig", "bnode-list"),
+    ("trig", "quoted"),
+    ("trig", "annotation"),
+    ("gtrig", "collection"),
+    ("gtrig", "bnode-list"),
+    ("gtrig", "quoted"),
+    ("gtrig", "annotation"),
+    ("xml", "elements"),
+    ("xml", "parsetype-resource"),
+    ("xml", "parsetype-literal"),
+    ("xml", "parsetype-collection"),
+    ("jsonld", "array"),
+    ("jsonld", "object"),
+    ("jsonld", "list"),
+    ("jsonld", "graph"),
+    ("jsonld", "context-array"),
+    ("jsonld", "unclosed-array"),
+];
+
+pub fn nest_doc(syntax: &str, kind: &str, depth: usize) -> String {
+    let mut s = String::new();
+    match (syntax, kind) {
+        (_, "quoted") if matches!(syntax, "nt" | "nq" | "gnq") => {
+            // <<...<< <a> <b> <c> >> <b> <c> >> ... <b> <c> .
+            s.push_str(&"<< ".repeat(depth));
+            s.push_str("<http://x/a> <http://x/b> <http://x/c>");
+            s.push_str(&" >> <http://x/b> <http://x/c>".repeat(depth));
+            s.push_str(" .\n");
+        }
+        (_, "quoted") => {
+            s.push_str("@prefix : <http://x/> .\n");
+            s.push_str(&"<< ".repeat(depth));
+            s.push_str(":a :b :c");
+            s.push_str(&" >> :b :c".repeat(depth));
+            s.push_str(" .\n");
+        }
+        (_, "collection") => {
+            s.push_str("@prefix : <http://x/> .\n:a :b ");
+            s.push_str(&"( ".repeat(depth));
+            s.push_str(&") ".repeat(depth));
+            s.push_str(".\n");
+        }
+        (_, "bnode-list") => {
+            s.push_str("@prefix : <http://x/> .\n:a :b ");
+            s.push_str(&"[ :b ".repeat(depth));
+            s.push_str(":c ");
+            s.push_str(&"] ".repeat(depth));
+            s.push_str(".\n");
+        }
+        (_, "annotation") => {
+            s.push_str("@prefix : <http://x/> .\n:a :b :c ");
+            s.push_str(&"{| :b :c ".repeat(depth));
+            s.push_str(&"|} ".repeat(depth));
+            s.push_str(".\n");
+        }
+        ("xml", "elements") => {
+            s.push_str("<rdf:RDF xmlns:rdf=\"http://www.w3.org/1999/02/22-rdf-syntax-ns#\" xmlns:ex=\"http://x/\">");
+            s.push_str(&"<rdf:Description><ex:p>".repeat(depth));
+            s.push_str("<rdf:Description/>");
+            s.push_str(&"</ex:p></rdf:Description>".repeat(depth));
+            s.push_str("</rdf:RDF>");
+        }
+        ("xml", "parsetype-resource") => {
+            s.push_str("<rdf:RDF xmlns:rdf=\"http://www.w3.org/1999/02/22-rdf-syntax-ns#\" xmlns:ex=\"http://x/\"><rdf:Description>");
+            s.push_str(&"<ex:p rdf:parseType=\"Resource\">".repeat(depth));
+            s.push_str(&"</ex:p>".repeat(depth));
+            s.push_str("</rdf:Description></rdf:RDF>");
+        }
+        ("xml", "parsetype-literal") => {
+            s.push_str("<rdf:RDF xmlns:rdf=\"http://www.w3.org/1999/02/22-rdf-syntax-ns#\" xmlns:ex=\"http://x/\"><rdf:Description><ex:p rdf:parseType=\"Literal\">");
+            s.push_str(&"<b>".repeat(depth));
+            s.push_str(&"</b>".repeat(depth));
+            s.push_str("</ex:p></rdf:Description></rdf:RDF>");
+        }
+        ("xml", "parsetype-collection") => {
+            s.push_str("<rdf:RDF xmlns:rdf=\"http://www.w3.org/1999/02/22-rdf-syntax-ns#\" xmlns:ex=\"http://x/\"><rdf:Description>");
+            s.push_str(&"<ex:p rdf:parseType=\"Collection\"><rdf:Description>".repeat(depth));
+            s.push_str(&"</rdf:Description></ex:p>".repeat(depth));
+            s.push_str("</rdf:Description></rdf:RDF>");
+        }
+        ("jsonld", "array") => {
+            s.push_str("{\"http://x/p\":");
+            s.push_str(&"[".repeat(depth));
+            s.push_str(&"]".repeat(depth));
+            s.push('}');
+        }
+        ("jsonld", "unclosed-array") => {
+            s.push_str(&"[".repeat(depth));
+        }
+        ("jsonld", "object") => {
+            s.push_str(&"{\"http://x/p\":".repeat(depth));
+            s.push_str("1");
+            s.push_str(&"}".repeat(depth));
+        }
+        ("jsonld", "list") => {
+            s.push_str("{\"http://x/p\":");
+            s.push_str(&"{\"@list\":[".repeat(depth));
+            s.push_str(&"]}".repeat(depth));
+            s.push('}');
+        }
+        ("jsonld", "graph") => {
+            s.push_str(&"{\"@graph\":[".repeat(depth));
+            s.push_str("{\"@id\":\"http://x/a\",\"http://x/p\":1}");
+            s.push_str(&"]}".repeat(depth));
+        }
+        ("jsonld", "context-array") => {
+            s.push_str("{\"@context\":");
+            s.push_str(&"[".repeat(depth));
+            s.push_str(&"]".repeat(depth));
+            s.push_str(",\"http://x/p\":1}");
+        }
+        _ => {}
+    }
+    s
+}
+
+/// `nest <syntax> <kind> <depth>`: parse the nested document on a thread with a 2 MiB stack
+fn worker_nest(args: &[String]) -> i32 {
+    let syntax = args.first().cloned().unwrap_or_default();
+    let kind = args.get(1).cloned().unwrap_or_default();
+    let depth: usize = args.get(2).and_then(|s| s.parse().ok()).unwrap_or(0);
+    // optional 4th argument: stack size in KiB (default 2048), to measure margins
+    let stack_kib: usize = args.get(3).and_then(|s| s.parse().ok()).unwrap_or(2048);
+    install_quiet_panic_hook();
+    let doc = nest_doc(&syntax, &kind, depth);
+    if doc.is_empty() {
+        return 2;
+    }
+    let h = std::thread::Builder::new()
+        .stack_size(stack_kib << 10)
+        .spawn(move || {
+            let rep = target::run_target(&syntax, None, doc.as_bytes(), engine_catcher);
+            (rep.statements, rep.source_error.is_some(), rep.problems)
+        })
+        .expect("spawn");
+    match h.join() {
+        Ok((st, err, problems)) => {
+            println!("NEST\tstatements={st}\terror={err}");
+            if problems.is_empty() {
+                0
+            } else {
+                for (k, d) in problems {
+                    println!("FAIL\t{k}\t\t{}", d.replace(['\n', '\t'], " "));
+                }
+                3
+            }
+        }
+        Err(_) => 4,
+    }
+}
+
+pub fn worker(args: &[String]) -> i32 {
+    match args.first().map(String::as_str) {
+        Some("gen") => worker_gen(&args[1..]),
+        Some("corpus") => worker_corpus(&args[1..]),
+        Some("nest") => worker_nest(&args[1..]),
+        Some("seeds") => {
+            // seeds <fuzz-dir>: write a small seed corpus of generated valid documents for each fuzz target
+            let dir = std::path::PathBuf::from(args.get(1).cloned().unwrap_or_else(|| "fuzz".into()));
+            let targets: [(&str, &[&str]); 4] = [("fuzz_nt_family", &["nt", "nq", "gnq"]), ("fuzz_turtle_family", &["turtle", "trig", "gtrig"]), ("fuzz_xml", &["xml"]), ("fuzz_jsonld", &["jsonld"])];
+            let mut x: u64 = 88172645463325252;
+            for (t, syns) in targets {
+                let d = dir.join("corpus").join(t);
+                let _ = std::fs::create_dir_all(&d);
+                for (si, syn) in syns.iter().enumerate() {
+                    for k in 0..40u32 {
+                        let mut tape = vec![1u32];
+                        for _ in 0..100 {
+                            x ^= x << 13;
+                            x ^= x >> 7;
+                            x ^= x << 17;
+                            tape.push((x >> 16) as u32);
+                        }
+                        let doc = gen_doc(syn, &tape);
+                        let sel = (si + syns.len() * (k as usize % 10)) as u8;
+                        let mut bytes = vec![sel];
+                        bytes.extend_from_slice(doc.as_bytes());
+                        let _ = std::fs::write(d.join(format!("{syn}-{k:02}")), bytes);
+                    }
+                }
+            }
+            0
+        }
+        Some("sample") => {
+            // sample <syntax> <n> [wild]: print generated documents (before edits) and what the parser says
+            install_quiet_panic_hook();
+            let syntax = args.get(1).cloned().unwrap_or_default();
+            let n: u32 = args.get(2).and_then(|s| s.parse().ok()).unwrap_or(5);
+            let wild = args.get(3).is_some();
+            let mut x: u64 = 88172645463325252;
+            for _ in 0..n {
+                let mut tape = vec![if wild { 0 } else { 1 }];
+                for _ in 0..120 {
+                    x ^= x << 13;
+                    x ^= x >> 7;
+                    x ^= x << 17;
+                    tape.push((x >> 16) as u32);
+                }
+                let doc = gen_doc(&syntax, &tape);
+                let rep = target::run_target(&syntax, Some("http://example.org/base/"), doc.as_bytes(), engine_catcher);
+                println!("=== statements={} error={:?}\n{}", rep.statements, rep.source_error, doc);
+            }
+            0
+        }
+        Some("one") => {
+            // one <syntax> <base|-> <file>: run a document from a file, print the report
+            install_quiet_panic_hook();
+            let syntax = args.get(1).cloned().unwrap_or_default();
+            let base = args.get(2).filter(|b| b.as_str() != "-").cloned();
+            let data = std::fs::read(args.get(3).map(String::as_str).unwrap_or("/dev/stdin")).unwrap_or_default();
+            let rep = target::run_target(&syntax, base.as_deref(), &data, engine_catcher);
+            println!("{rep:#?}");
+            if rep.problems.is_empty() { 0 } else { 1 }
+        }
+        _ => 2,
+    }
+}
+
+struct ChildOut {
+    status: Option<std::process::ExitStatus>,
+    stdout: String,
+    stderr_tail: String,
+    timed_out: bool,
+}
+
+fn run_child(bin: &str, args: &[String], timeout: Duration) -> std::io::Result<ChildOut> {
+    let mut child = Command::new(bin).args(args).stdin(Stdio::null()).stdout(Stdio::piped()).stderr(Stdio::piped()).spawn()?;
+    let mut so = child.stdout.take().unwrap();
+    let mut se = child.stderr.take().unwrap();
+    let t1 = std::thread::spawn(move || {
+        let mut s = String::new();
+        let _ = so.read_to_string(&mut s);
+        s
+    });
+    let t2 = std::thread::spawn(move || {
+        let mut s = Vec::new();
+        let _ = se.read_to_end(&mut s);
+        String::from_utf8_lossy(&s).into_owned()
+    });
+    let t0 = Instant::now();
+    let mut timed_out = false;
+    let status = loop {
+        match child.try_wait()? {
+            Some(st) => break Some(st),
+            None => {
+                if t0.elapsed() > timeout {
+                    let _ = child.kill();
+                    let _ = child.wait();
+                    timed_out = true;
+                    break None;
+                }
+                std::thread::sleep(Duration::from_millis(20));
+            }
+        }
+    };
+    let stdout = t1.join().unwrap_or_default();
+    let stderr = t2.join().unwrap_or_default();
+    let tail: String = stderr.lines().rev().take(6).collect::<Vec<_>>().into_iter().rev().collect::<Vec<_>>().join(" | ");
+    Ok(ChildOut { status, stdout, stderr_tail: tail, timed_out })
+}
+
+fn describe_status(st: &std::process::ExitStatus) -> String {
+    use std::os::unix::process::ExitStatusExt;
+    match (st.code(), st.signal()) {
+        (Some(c), _) => format!("exit code {c}"),
+        (None, Some(s)) => format!("killed by signal {s}"),
+        _ => "unknown status".into(),
+    }
+}
+
+fn parse_fail_lines(out: &str, profile: &str, failures: &mut Vec<(Value, Failure)>) -> (u64, u64) {
+    let mut evals = 0;
+    let mut nt = 0;
+    for line in out.lines() {
+        let parts: Vec<&str> = line.splitn(4, '\t').collect();
+        match parts.as_slice() {
+            ["FAIL", sig, case, detail] => {
+                let cv: Value = serde_json::from_str(case).unwrap_or(Value::Null);
+                failures.push((cv, Failure { signature: sig.to_string(), detail: format!("[{profile} binary] {detail}") }));
+            }
+            ["DONE", e, n] => {
+                evals = e.parse().unwrap_or(0);
+                nt = n.parse().unwrap_or(0);
+            }
+            _ => {}
+        }
+    }
+    (evals, nt)
+}
+
+fn extra(tier: Tier, seed: u64, _known: &Known) -> ExtraResult {
+    let mut res = ExtraResult::default();
+    let mut info = serde_json::Map::new();
+    let verif_bin = std::env::var("VCHECK_VERIF").ok().filter(|p| std::path::Path::new(p).exists()).or_else(|| std::env::current_exe().ok().map(|p| p.display().to_string()));
+    let release_bin = std::env::var("VCHECK_RELEASE").ok().filter(|p| std::path::Path::new(p).exists());
+    // the dev binary is only used on request (C08_WITH_DEV=1), so that results do not depend on
+    // whether another check happened to build it
+    let dev_bin = std::env::var("VCHECK_DEV").ok().filter(|p| std::path::Path::new(p).exists() && std::env::var_os("C08_WITH_DEV").is_some());
+
+    // ---- 1. the same generated inputs + the corpus, in the release binary
+    match &release_bin {
+        None => res.inconclusive.push("release binary (env VCHECK_RELEASE) not available: release stage skipped".into()),
+        Some(bin) => {
+            let cases = C08::cases(tier);
+            let shards = 16u32;
+            let t0 = Instant::now();
+            let outs: Vec<(u32, std::io::Result<ChildOut>)> = std::thread::scope(|s| {
+                let hs: Vec<_> = (0..=shards)
+                    .map(|i| {
+                        let bin = bin.clone();
+                        s.spawn(move || {
+                            if i == shards {
+                                (i, run_child(&bin, &["--worker".into(), "C08".into(), "corpus".into()], Duration::from_secs(600)))
+                            } else {
+                                let n = cases / shards + if i < cases % shards { 1 } else { 0 };
+                                (
+                                    i,
+                                    run_child(
+                                        &bin,
+                                        &["--worker".into(), "C08".into(), "gen".into(), seed.to_string(), i.to_string(), n.to_string()],
+                                        Duration::from_secs(tier.pick(900, 7200)),
+                                    ),
+                                )
+                            }
+                        })
+                    })
+                    .collect();
+                hs.into_iter().map(|h| h.join().expect("child thread")).collect()
+            });
+            let mut evals = 0;
+            let mut nontrivial = 0;
+            for (i, o) in outs {
+                match o {
+                    Err(e) => res.inconclusive.push(format!("cannot run release worker {i}: {e}")),
+                    Ok(o) if o.timed_out => res.inconclusive.push(format!("release worker {i} timed out")),
+                    Ok(o) => {
+                        let (e, n) = parse_fail_lines(&o.stdout, "release", &mut res.failures);
+                        evals += e;
+                        nontrivial += n;
+                        match o.status {
+                            Some(st) if st.success() => {}
+                            Some(st) => res.failures.push((
+                                json!({"worker": "gen", "seed": seed, "shard": i}),
+                                Failure { signature: "crash/release-worker".into(), detail: format!("release worker {i} died: {} ; stderr: {}", describe_status(&st), o.stderr_tail) },
+                            )),
+                            None => {}
+                        }
+                    }
+                }
+            }
+            res.evaluations += evals;
+            res.nontrivial += nontrivial;
+            info.insert("release_evaluations".into(), json!(evals));
+            info.insert("release_wall_s".into(), json!(t0.elapsed().as_secs_f64()));
+        }
+    }
+
+    // ---- 2. deep nesting in child processes (2 MiB thread stack)
+    let depths: Vec<usize> = tier.pick(vec![1_000, 10_000, 100_000], vec![1_000, 10_000, 100_000, 1_000_000]);
+    let mut bins: Vec<(&str, String)> = vec![];
+    if let Some(b) = &verif_bin {
+        bins.push(("verif", b.clone()));
+    }
+    if let Some(b) = &release_bin {
+        bins.push(("release", b.clone()));
+    }
+    if let Some(b) = &dev_bin {
+        bins.push(("dev", b.clone()));
+    }
+    let mut jobs: Vec<(String, String, usize, String, String)> = vec![];
+    for (syntax, kind) in NEST_KINDS {
+        for d in &depths {
+            for (pname, bin) in &bins {
+                jobs.push((syntax.to_string(), kind.to_string(), *d, pname.to_string(), bin.clone()));
+            }
+        }
+    }
+    let njobs = jobs.len();
+    let t0 = Instant::now();
+    let jobs = std::sync::Mutex::new(jobs.into_iter().enumerate().collect::<Vec<_>>());
+    let results: Vec<(usize, (String, String, usize, String), std::io::Result<ChildOut>)> = std::thread::scope(|s| {
+        let hs: Vec<_> = (0..12)
+            .map(|_| {
+                let jobs = &jobs;
+                s.spawn(move || {
+                    let mut out = vec![];
+                    loop {
+                        let job = jobs.lock().unwrap().pop();
+                        let Some((idx, (syntax, kind, d, pname, bin))) = job else { break };
+                        let r = run_child(&bin, &["--worker".into(), "C08".into(), "nest".into(), syntax.clone(), kind.clone(), d.to_string()], Duration::from_secs(tier.pick(60, 300)));
+                        out.push((idx, (syntax, kind, d, pname), r));
+                    }
+                    out
+                })
+            })
+            .collect();
+        hs.into_iter().flat_map(|h| h.join().expect("nest thread")).collect()
+    });
+    let mut results = results;
+    results.sort_by_key(|r| r.0);
+    let mut nest_ok = 0u64;
+    let mut nest_table = serde_json::Map::new();
+    let mut seen_sig = std::collections::BTreeSet::new();
+    for (_, (syntax, kind, d, pname), r) in results {
+        let key = format!("{syntax}/{kind}/{d}/{pname}");
+        match r {
+            Err(e) => res.inconclusive.push(format!("cannot run nesting child {key}: {e}")),
+            Ok(o) if o.timed_out => {
+                nest_table.insert(key.clone(), json!("timeout"));
+                res.inconclusive.push(format!("nesting child {key} timed out"));
+            }
+            Ok(o) => {
+                let st = o.status.expect("status");
+                res.evaluations += 1;
+                if st.success() {
+                    nest_ok += 1;
+                    res.nontrivial += 1;
+                    nest_table.insert(key, json!(o.stdout.lines().find(|l| l.starts_with("NEST")).unwrap_or("ok").replace('\t', " ")));
+                } else if st.code() == Some(3) {
+                    // in-target problems (panic caught / invalid term)
+                    nest_table.insert(key, json!("problem"));
+                    let mut f = vec![];
+                    parse_fail_lines(&o.stdout, &pname, &mut f);
+                    for (_, fl) in f {
+                        let sig = format!("{}/{syntax}", fl.signature);
+                        if seen_sig.insert(sig.clone()) {
+                            res.failures.push((json!({"syntax": "nesting", "text": format!("{syntax} {kind} {d}")}), Failure { signature: sig, detail: format!("nesting {kind} x {d}: {}", fl.detail) }));
+                        }
+                    }
+                } else {
+                    nest_table.insert(key, json!(describe_status(&st)));
+                    let sig = format!("stack/{syntax}/{kind}");
+                    if seen_sig.insert(sig.clone()) {
+                        res.failures.push((
+                            json!({"syntax": "nesting", "text": format!("{syntax} {kind} {d}")}),
+                            Failure {
+                                signature: sig,
+                                detail: format!(
+                                    "{syntax} document with {d} nested '{kind}' parsed on a 2 MiB thread stack in the {pname} binary: child {} ; stderr: {}",
+                                    describe_status(&st),
+                                    o.stderr_tail
+                                ),
+                            },
+                        ));
+                    }
+                }
+            }
+        }
+    }
+    info.insert("nesting_jobs".into(), json!(njobs));
+    info.insert("nesting_ok".into(), json!(nest_ok));
+    info.insert("nesting_wall_s".into(), json!(t0.elapsed().as_secs_f64()));
+    info.insert("nesting".into(), Value::Object(nest_table));
+    info.insert("profiles".into(), json!(bins.iter().map(|b| b.0).collect::<Vec<_>>()));
+
+    // ---- 3. thorough: cargo-fuzz campaign
+    if tier == Tier::Thorough {
+        fuzz_stage(seed, &mut res, &mut info);
+    }
+    res.info = Value::Object(info);
+    res
+}
+
+fn fuzz_stage(seed: u64, res: &mut ExtraResult, info: &mut serde_json::Map<String, Value>) {
+    let root = verif_root();
+    let fdir = root.join("fuzz");
+    if !fdir.join("Cargo.toml").exists() {
+        res.inconclusive.push("fuzz crate not found: fuzz stage skipped".into());
+        return;
+    }
+    let runs: u64 = std::env::var("C08_FUZZ_RUNS").ok().and_then(|s| s.parse().ok()).unwrap_or(500_000);
+    let targets = ["fuzz_nt_family", "fuzz_turtle_family", "fuzz_xml", "fuzz_jsonld"];
+    let t0 = Instant::now();
+    // build once
+    let hdir = root.join("harness");
+    // (cargo-fuzz needs to be started inside a cargo project: the harness crate, with --fuzz-dir)
+    if !fdir.join("corpus").join("fuzz_xml").exists() {
+        if let Ok(exe) = std::env::current_exe() {
+            let _ = Command::new(exe).args(["--worker", "C08", "seeds", fdir.to_str().unwrap_or("fuzz")]).output();
+        }
+    }
+    let b = Command::new("cargo").current_dir(&hdir).args(["+nightly", "fuzz", "build", "-O", "--fuzz-dir", fdir.to_str().unwrap_or("fuzz")]).env("CARGO_NET_OFFLINE", "true").output();
+    match b {
+        Ok(o) if o.status.success() => {}
+        Ok(o) => {
+            res.inconclusive.push(format!("cargo fuzz build failed: {}", String::from_utf8_lossy(&o.stderr).lines().rev().take(5).collect::<Vec<_>>().join(" | ")));
+            return;
+        }
+        Err(e) => {
+            res.inconclusive.push(format!("cargo fuzz not runnable: {e}"));
+            return;
+        }
+    }
+    let outs: Vec<(String, std::io::Result<std::process::Output>)> = std::thread::scope(|s| {
+        let hs: Vec<_> = targets
+            .iter()
+            .flat_map(|t| (0..4u64).map(move |j| (t.to_string(), j)))
+            .map(|(t, j)| {
+                let fdir = fdir.clone();
+                let hdir = hdir.clone();
+                s.spawn(move || {
+                    let corpus = fdir.join("corpus").join(&t);
+                    let work = fdir.join("work").join(format!("{t}-{j}"));
+                    let _ = std::fs::create_dir_all(&work);
+                    let art = fdir.join("artifacts").join(&t);
+                    let _ = std::fs::create_dir_all(&art);
+                    let o = Command::new("cargo")
+                        .current_dir(&hdir)
+                        .args(["+nightly", "fuzz", "run", "-O", "--fuzz-dir", fdir.to_str().unwrap_or("fuzz"), &t, work.to_str().unwrap(), corpus.to_str().unwrap(), "--"])
+                        .arg(format!("-seed={}", (seed.wrapping_add(j) % 4_000_000_000).max(1)))
+                        .arg(format!("-runs={runs}"))
+                        .args(["-len_control=0", "-max_len=4096", "-rss_limit_mb=4096", "-timeout=20"])
+                        .arg(format!("-artifact_prefix={}/", art.display()))
+                        .env("CARGO_NET_OFFLINE", "true")
+                        .output();
+                    (format!("{t}-{j}"), o)
+                })
+            })
+            .collect();
+        hs.into_iter().map(|h| h.join().expect("fuzz thread")).collect()
+    });
+    let mut table = serde_json::Map::new();
+    for (name, o) in outs {
+        match o {
+            Err(e) => res.inconclusive.push(format!("fuzz run {name} not runnable: {e}")),
+            Ok(o) => {
+                let err = String::from_utf8_lossy(&o.stderr).into_owned();
+                let done = err.lines().rev().find(|l| l.contains("Done ")).unwrap_or("").to_string();
+                let execs: u64 = done.split_whitespace().nth(1).and_then(|x| x.parse().ok()).unwrap_or(0);
+                table.insert(name.clone(), json!({"done": done, "ok": o.status.success()}));
+                res.evaluations += execs;
+                res.nontrivial += execs / 2;
+                if !o.status.success() {
+                    let crash = err.lines().filter(|l| l.contains("panicked at") || l.contains("ERROR: libFuzzer") || l.contains("C08-ORACLE") || l.contains("Test unit written")).take(6).collect::<Vec<_>>().join(" | ");
+                    let oracle_sig = err.lines().find_map(|l| l.split("C08-ORACLE ").nth(1).map(|s| s.split_whitespace().next().unwrap_or("").to_string()));
+                    let timeout = err.contains("ERROR: libFuzzer: timeout");
+                    if timeout {
+                        res.inconclusive.push(format!("fuzz run {name}: libFuzzer timeout: {crash}"));
+                    } else {
+                        let target = name.rsplit_once('-').map(|x| x.0).unwrap_or(&name).to_string();
+                        let sig = oracle_sig.unwrap_or_else(|| format!("fuzz-crash/{target}"));
+                        res.failures.push((json!({"fuzz_target": target, "see": "fuzz/artifacts"}), Failure { signature: sig, detail: format!("libFuzzer run {name} failed: {crash}") }));
+                    }
+                }
+            }
+        }
+    }
+    info.insert("fuzz".into(), Value::Object(table));
+    info.insert("fuzz_runs_per_job".into(), json!(runs));
+    info.insert("fuzz_wall_s".into(), json!(t0.elapsed().as_secs_f64()));
+}
+
+pub fn main(opts: &Opts) -> i32 {
+    if std::env::var_os("VERIF_SHOW_PANICS").is_none() {
+        // json-ld prints a warning on stderr for every malformed IRI it meets: silence fd 2
+        unsafe {
+            let devnull = libc::open(b"/dev/null\0".as_ptr() as *const libc::c_char, libc::O_WRONLY);
+            if devnull >= 0 {
+                libc::dup2(devnull, 2);
+            }
+        }
+    }
+    drive::<C08>(opts)
 }
